@@ -1,4 +1,5 @@
 import Poupool.Model.Tank
+import Poupool.Properties.Sensor
 import Poupool.Properties.C01
 import Poupool.Properties.C08
 /-!
@@ -67,5 +68,32 @@ theorem poll_periods (c : Cfg) (h tis : Int) :
 
 example : pollHigh ecoCfg 3 = .toNormal ∧ pollNormal ecoCfg 3 = .toLow ∧ pollLow ecoCfg 3 0 = .emergency :=
   too_low_chain ecoCfg config_valid.1 3 0 (by decide)
+
+/-- The clause "including a dead level sensor, which reads as 0", end to end on the models: when all ten read attempts of a
+reading fail, the value `TankSensorDevice.value` returns is 0 for every calibration 0 ≤ low < high (`SensorProps.dead_sensor_reads_zero`),
+the reading took exactly 5 s, hence R = 10 half-seconds in `latency_bound`, and whatever integer `h` stands for that value in the unit
+of the thresholds (`h · den = num · unit`), every positive too-low threshold sends the polls down the chain to the emergency stop. -/
+theorem dead_sensor_stops_the_system (c : Cfg) (hv : Valid c) (hpos : 0 < c.tooLow)
+    (s : Poupool.Sensor.Cfg) (hs : Poupool.Sensor.Valid s) (reads : List (Option Int)) (hdead : ∀ r ∈ reads, r = none) (hten : reads.length = 10)
+    (h unit tis : Int) (hrep : h * (Poupool.Sensor.value s reads).2 = (Poupool.Sensor.value s reads).1 * unit) :
+    pollHigh c h = .toNormal ∧ pollNormal c h = .toLow ∧ pollLow c h tis = .emergency ∧
+    Poupool.Sensor.elapsedMs reads = 5000 ∧ ∀ phase, latencyHalfSec phase 10 ≤ 50 := by
+  obtain ⟨hz, hd⟩ := Poupool.SensorProps.dead_sensor_reads_zero s hs reads hdead
+  have h0 : h = 0 := by
+    rw [hz, Int.zero_mul] at hrep
+    rcases Int.mul_eq_zero.mp hrep with h1 | h1
+    · exact h1
+    · omega
+  obtain ⟨a, b, d⟩ := too_low_chain c hv h tis (by omega)
+  refine ⟨a, b, d, ?_, fun ph => latency_bound ph 10 (by omega)⟩
+  have hrep' : reads = List.replicate reads.length none := by
+    apply List.ext_getElem (by simp)
+    intro i h1 h2
+    simp [hdead _ (List.getElem_mem h1)]
+  rw [hrep', Poupool.SensorProps.dead_reading_time, hten]
+
+example : Valid ecoCfg ∧ 0 < ecoCfg.tooLow ∧ Poupool.Sensor.Valid ⟨83, 1665⟩ ∧ (∀ r ∈ List.replicate 10 (none : Option Int), r = none) := by
+  refine ⟨config_valid.1, by decide, by decide, ?_⟩
+  intro r hr; simp at hr; exact hr
 
 end Poupool.C04
